@@ -327,7 +327,7 @@ def cond_case(draw, tier):
     fibers = []
     for _ in range(nw):
         ops = small_ops(draw, 1)
-        ops.append(op("cwait", draw(ints(1, 3))))
+        ops.append(op("cwait", draw(ints(1, 3)), draw(st.sampled_from([0, 0, 1, 2]))))
         fibers.append(ops)
     held_any = unheld_any = False
     for _ in range(nsig):
